@@ -1,2 +1,11 @@
 #!/bin/sh
-exit 0
+# Builds the shim, the fclones binary (hooks on) and the harness from files on disk only.
+cd "$(dirname "$0")" || exit 2
+export CARGO_NET_OFFLINE=true
+python3 - <<'PY'
+import sys
+sys.path.insert(0, "driver")
+import lib
+lib.build_all()
+print("setup ok")
+PY
